@@ -54,10 +54,10 @@ def build_world(chk=None):
 Definition init0 : state := init_state [].
 """)
     os.makedirs(pv.GEN, exist_ok=True)
-    path = os.path.join(pv.GEN, "World.v")
+    path = os.path.join(pv.GEN, pv.WORLD + ".v")
     body = "".join(lines)
     old = open(path).read() if os.path.exists(path) else None
-    vo = os.path.join(pv.GEN, "World.vo")
+    vo = os.path.join(pv.GEN, pv.WORLD + ".vo")
     info = {"objects": len(objs), "native_closures": len(w["clos"]),
             "go_builtins": len({p["coq"] for o in objs for p in (o["pairs"] or []) if p["kind"] == "builtin"}),
             "globals": len(w["globals"]), "unsupported_values": sorted(set(w.get("unsup") or []))}
@@ -68,5 +68,5 @@ Definition init0 : state := init_state [].
         return True, "", info
     with open(path, "w") as f:
         f.write(body)
-    rc, log = pv.run(["timeout", "600", "coqc", "-R", ".", "PanVerif", "-w", "-all", "gen/World.v"], cwd=pv.COQ)
+    rc, log = pv.run(["timeout", "600", "coqc", "-R", ".", "PanVerif", "-w", "-all", "gen/%s.v" % pv.WORLD], cwd=pv.COQ)
     return rc == 0, log, info
